@@ -140,30 +140,38 @@ def nan_mean_per_model(evaluations):
 
 
 # ----------------------------------------------------------------------------- t statistics
-def classical_tests(per_subject, ceiling):
-    """per_subject: m x n_subject evaluations.  Returns dict with
+def classical_tests_batch(per_subject, ceilings):
+    """per_subject: K x m x n_subject evaluations of K independent cases, ceilings: K values.
+    Returns a list of K dicts with
     sem (m), p_pair (m x m, paired two-sided, unit diagonal), p_zero (m, one-sample one-sided
-    'greater'), p_nc (m, one-sample two-sided against `ceiling`), and `defined` flags:
-    zero-variance samples / differences have no t statistic."""
+    'greater'), p_nc (m, one-sample two-sided against the ceiling), and `var_ok` / `pair_ok`
+    flags: zero-variance samples / differences have no t statistic.  (Batched only because one
+    scipy call costs ~1 ms; every number comes from scipy.stats.)"""
     e = np.asarray(per_subject, dtype=float)
-    m, n = e.shape
-    sem = np.array([stats.sem(e[i], ddof=1) for i in range(m)])
-    var_ok = np.array([np.var(e[i], ddof=1) > 1e-14 * max(1.0, float(np.max(np.abs(e[i])))) for i in range(m)])
-    p_zero = stats.ttest_1samp(e, 0.0, axis=1, alternative='greater').pvalue
-    p_nc = stats.ttest_1samp(e, float(ceiling), axis=1, alternative='two-sided').pvalue
-    p_pair = np.ones((m, m))
-    pair_ok = np.ones((m, m), dtype=bool)
-    for i, j in pairs(m):
-        d = e[i] - e[j]
-        ok = np.var(d, ddof=1) > 1e-14 * max(1.0, float(np.max(np.abs(e))))
-        pair_ok[i, j] = pair_ok[j, i] = ok
-        if ok:
-            p = stats.ttest_rel(e[i], e[j]).pvalue
-            p_pair[i, j] = p_pair[j, i] = p
-        else:
-            p_pair[i, j] = p_pair[j, i] = np.nan
-    return {'sem': sem, 'p_zero': np.asarray(p_zero), 'p_nc': np.asarray(p_nc), 'p_pair': p_pair,
-            'var_ok': var_ok, 'pair_ok': pair_ok}
+    K, m, n = e.shape
+    c = np.asarray(ceilings, dtype=float).reshape(K, 1, 1)
+    scale = np.maximum(1.0, np.max(np.abs(e), axis=(1, 2)))                     # K
+    with np.errstate(all='ignore'):
+        sem = stats.sem(e, axis=2, ddof=1)                                          # K x m
+        var_ok = np.var(e, axis=2, ddof=1) > 1e-14 * scale[:, None]
+        p_zero = np.asarray(stats.ttest_1samp(e, 0.0, axis=2, alternative='greater').pvalue)
+        p_nc = np.asarray(stats.ttest_1samp(e, c, axis=2, alternative='two-sided').pvalue)
+        p_pair = np.ones((K, m, m))
+        pair_ok = np.ones((K, m, m), dtype=bool)
+        for i, j in pairs(m):
+            ok = np.var(e[:, i] - e[:, j], axis=1, ddof=1) > 1e-14 * scale
+            p = np.asarray(stats.ttest_rel(e[:, i], e[:, j], axis=1).pvalue)
+            p = np.where(ok, p, np.nan)
+            p_pair[:, i, j] = p_pair[:, j, i] = p
+            pair_ok[:, i, j] = pair_ok[:, j, i] = ok
+    return [{'sem': sem[k], 'p_zero': p_zero[k], 'p_nc': p_nc[k], 'p_pair': p_pair[k],
+             'var_ok': var_ok[k], 'pair_ok': pair_ok[k]} for k in range(K)]
+
+
+def classical_tests(per_subject, ceiling):
+    """one case: per_subject m x n_subject, see classical_tests_batch"""
+    e = np.asarray(per_subject, dtype=float)
+    return classical_tests_batch(e.reshape((1,) + e.shape), [ceiling])[0]
 
 
 # ----------------------------------------------------------------------------- permutations
